@@ -114,6 +114,7 @@ func errorDiscipline(r *Run, p *Prog, T *Terms, rule string, fns []*ssa.Function
 				nCalls++
 				ord++
 				eT := T.T(e)
+				r.Ob(rule, shortName(f), fmt.Sprintf("the error of %s (call #%d) is examined", name, ord), c.Pos(), true, "")
 				// E1
 				if fErr {
 					for _, rv := range returnedValues(f, res.Len()-1) {
